@@ -252,6 +252,11 @@ def _check_flip_estimator(ck, inst, asite, p, cls, ocls, absolute):
     s, o, smp, r = p.value
     S = T.sym("samples")
     loops = loops_enclosing(it, ".importance_sampling_numerator") or [l for l in it.loops if ocls + ".apply" in l["site"]]
+    if not loops:
+        acc_t = _vector_flips(ck, inst, asite, p, ocls)
+        if acc_t is not None:
+            _final_flip_estimate(ck, inst, asite, p, acc_t, absolute)
+        return
     if len(loops) != 1 or loops[0]["generic"] is None:
         ck.undecided("C08.R3", inst + ":site loop", asite, "expected exactly one loop over sites, found %d" % len(loops))
         return
@@ -334,7 +339,138 @@ def _check_flip_estimator(ck, inst, asite, p, cls, ocls, absolute):
             ck.undecided("C08.R3", inst + ":summand", lp["site"], "accumulated term is not numerator%s: %r" % ("*i(2s_i-1)" if ocls == "SigmaY" else "", summand))
             return
     # final: real( accum / denominator(samples) ) / nv  [abs]
-    acc_final = acc_obj.term
+    _final_flip_estimate(ck, inst, asite, p, acc_obj.term, absolute)
+
+
+def _vector_flips(ck, inst, asite, p, ocls):
+    """All single-spin flips evaluated in one batched call: n copies of the batch on top of each other, one spin flipped per row.
+    Decided by value: what every row holds, which site it flips (integer tables of the row / site indices for all small batch
+    sizes and site counts), which rows are summed into which sample.  Returns the accumulated numerator term, or None."""
+    from .. import ints
+
+    it = p.interp
+    S = T.sym("samples")
+    gc = [c for c in it.calls if c[0].endswith("importance_sampling_numerator")]
+    dv = [c for c in it.calls if c[0].endswith("cplx.elementwise_division") and (ocls + ".apply") in str(c[3])]
+    if len(gc) != 1 or len(dv) != 1:
+        ck.undecided("C08.R3", inst + ":site loop", asite, "expected exactly one loop over sites, found 0 (and no single batched evaluation of all flips either)")
+        return None
+    g = gc[0]
+    a_vp, a_v = g[5].get("vp"), g[5].get("v")
+    tvp, tv = g[7].get("vp"), g[7].get("v")
+    name = inst + ":batched flips"
+    at = tvp.single_atom() if tvp is not None else None
+    if not (isinstance(at, T.App) and at.op == "upd" and len(at.args[1]) == 2 and all(isinstance(q, tuple) and q and q[0] == "adv" for q in at.args[1])):
+        ck.undecided("C08.R3", name, asite, "the batch of flipped configurations is not <copies of the batch>[rows, sites] := flipped values: %s" % (str(tvp)[:160],))
+        return None
+    base, spec, val = at.args
+    ba = base.single_atom()
+    if not (isinstance(ba, T.App) and ba.op == "repeat" and ba.args[0] == S and tuple(ba.args[1]) == ("nv", "1")):
+        ck.undecided("C08.R3", name, asite, "the flipped batch is not built on samples.repeat(num_visible, 1): %s" % (str(base)[:120],))
+        return None
+    ck.check(tv == base, "C08.R3", name + ":reference is the unflipped copy", asite, "the second argument of the numerator is not the unflipped stack of copies")
+    rd = T.app("index", base, spec)
+    ck.check(val in (T.ONE - rd, T.absval(rd - 1)), "C08.R3", name + ":the selected spin is flipped", asite, "the value written at the selected entries is %s, not the flipped spin" % (str(val)[:120],))
+    ck.check(isinstance(a_vp, VTens) and a_vp.obj.origin == "fresh", "C08.R1", inst + ":flip on a copy", asite, "the spin flip is applied to a tensor sharing storage with %s" % (getattr(getattr(a_vp, "obj", None), "origin", "?")))
+    # rows: copy c of sample s is row c * B + s (samples.repeat(n, 1) stacks n copies of the batch); the accumulated numerator
+    # reshapes the rows to (n, B) and sums the copies (the shape algebra has checked that split)
+    acc = dv[0][7].get("x")
+    aa = acc.single_atom() if acc is not None else None
+
+    def _summed_copies(t_):
+        """t_ = sum over the copies axis of <rows reshaped to (n, B)>, componentwise linear: the summed row-wise expression, or None"""
+        if t_ is None or not hasattr(t_, "terms"):
+            return None
+        out = T.ZERO
+        for mono, c_ in t_.terms.items():
+            if len(mono) != 1 or mono[0][1] != 1 or not (isinstance(mono[0][0], T.App) and mono[0][0].op == "sum" and tuple(mono[0][0].args[1]) in ((-2,),)):
+                return None
+            out = out + c_ * mono[0][0].args[0]
+
+        def strip(a_):
+            # elementwise arithmetic commutes with one and the same reshape of the row axis
+            if isinstance(a_, T.App) and a_.op == "view" and isinstance(a_.args[1], str) and a_.args[1].startswith("regroup"):
+                return a_.args[0]
+            return None
+
+        return T.subst(out, strip)
+
+    comps_acc = T.as_stack0(acc) if acc is not None else None
+    if isinstance(aa, T.App) and aa.op == "sum" and tuple(aa.args[1]) == (-2,):
+        inner_rows = _summed_copies(acc)
+        inner_pair = T.as_stack0(inner_rows) if inner_rows is not None else None
+    elif comps_acc is not None and len(comps_acc) == 2:
+        inner_pair = [_summed_copies(c_) for c_ in comps_acc]
+        if any(c_ is None for c_ in inner_pair):
+            inner_pair = None
+    else:
+        inner_pair = None
+    if inner_pair is None or len(inner_pair) != 2:
+        ck.undecided("C08.R3", name + ":copies summed per sample", asite, "the numerators are not reshaped to (2, num_visible, batch) and summed over the copies: %s" % (str(acc)[:160],))
+        return None
+    R, C = spec[0][1], spec[1][1]
+    bad = None
+    decided = 0
+    for b in (1, 2, 3, 4):
+        for n in (1, 2, 3, 4):
+            env = {"B": b, "nv": n}
+            rt, ct = ints.eval_array(R, env), ints.eval_array(C, env)
+            if rt is None or ct is None or not hasattr(rt, "data") or not hasattr(ct, "data"):
+                continue
+            decided += 1
+            rows, cols = list(rt.data), list(ct.data)
+            if sorted(rows) != list(range(b * n)) or len(cols) != b * n:
+                bad = bad or (b, n, "the row indices are %s: not every row of the %d copies exactly once" % (rows, n))
+                continue
+            site_of_row = {r_: c_ for r_, c_ in zip(rows, cols)}
+            for s_ in range(b):
+                got = sorted(site_of_row[c_ * b + s_] for c_ in range(n))
+                if got != list(range(n)):
+                    bad = bad or (b, n, "the %d copies of sample %d flip the sites %s, not each of the %d sites once" % (n, s_, got, n))
+    if bad is not None:
+        ck.violation("C08.R3", name + ":every sample has each of its sites flipped once", asite,
+                     "with a batch of %d samples and %d sites %s (row c * B + s is copy c of sample s; the site index must be constant within a copy: repeat_interleave, not a tiled repeat)" % bad,
+                     key="C08.R3|%s|batched flips do not cover the sites" % ocls)
+        return None
+    if not decided:
+        ck.undecided("C08.R3", name + ":every sample has each of its sites flipped once", asite, "row / site index tables not evaluated: rows %s, sites %s" % (str(R)[:80], str(C)[:80]))
+        return None
+    ck.ok("C08.R3", name + ":every sample has each of its sites flipped once", asite, tables=decided)
+    # the summed term: the numerators themselves (sigma_x), times i (2 s - 1) of the spin that was flipped (sigma_y)
+    num_t = g[6]
+    nc = T.as_stack0(num_t) if num_t is not None else None
+    if nc is None or len(nc) != 2:
+        ck.undecided("C08.R3", name + ":summand", asite, "the numerator is not a (re, im) pair")
+        return None
+    got_re, got_im = (T.idx0(x_, 0) if False else x_ for x_ in inner_pair)
+    if ocls == "SigmaX":
+        want_re, want_im = nc[0], nc[1]
+    else:
+        k_ = 2 * rd - 1  # the spin that is flipped, in the +-1 convention, before the flip
+        want_re, want_im = -(k_ * nc[1]), k_ * nc[0]
+    # (components may come as idx0(stack0(..)) of the reshaped pair)
+    def comp_norm(t_):
+        def fn(a_):
+            if isinstance(a_, T.App) and a_.op == "idx0" and T.as_stack0(a_.args[0]) is not None:
+                return T.as_stack0(a_.args[0])[a_.args[1]]
+            return None
+        return T.subst(t_, fn)
+
+    got_re, got_im = comp_norm(got_re), comp_norm(got_im)
+    if got_re == want_re and got_im == want_im:
+        ck.ok("C08.R3", name + ":summand", asite)
+        return acc
+    if ocls == "SigmaY" and got_re == -want_re and got_im == -want_im:
+        ck.violation("C08.R3", name + ":summand", asite, "the sigma_y matrix element has the wrong sign (coefficient is -i(2s_i-1) instead of +i(2s_i-1))")
+        return None
+    ck.undecided("C08.R3", name + ":summand", asite, "what is summed over the copies is not recognised as the numerator%s: %s" % (" times i(2 s_i - 1)" if ocls == "SigmaY" else "", str(got_re)[:160]))
+    return None
+
+
+def _final_flip_estimate(ck, inst, asite, p, acc_final, absolute):
+    prog = ck.program
+    it = p.interp
+    s, o, smp, r = p.value
 
     def ref(it2=it):
         accv = VTens(it.new_tobj("tensor", acc_final, (2, "B"), "fresh"))
